@@ -1,6 +1,9 @@
 import Orx.KSRun
 import Orx.IW.Outs
-import Orx.GenThms
+import Orx.GenThms.Slice
+import Orx.GenThms.Vec
+import Orx.GenThms.Arr
+import Orx.GenThms.Range
 /-! # C02 Index fidelity: a reported index is the element's source position -/
 namespace Orx.Props.C02
 open Orx Orx.KS
